@@ -79,7 +79,15 @@ Damage == /\ Focus = "damage" /\ alive /\ dir = "ok" /\ ~Damaged
           /\ \E f \in FileStates \ {ac} : ac' = f
           /\ UNCHANGED <<sel, dir, alive, mem, acmem, disk, crashed>> /\ Log("damage")
 
-Next == Len(hist) <= MaxSteps /\ (New \/ Type \/ CommitLearn \/ CrashInSave \/ Restart \/ Update \/ Damage)
+\* ... and the user-data directory that was missing or not writable appears / becomes writable while the context is alive
+\* (the front-end's installer creates it, a mount comes back) - at most once per scenario.  From then on saves complete
+\* again: "a failed save loses at most that one learned choice", not the ones learned afterwards.
+Repaired == \E i \in 1..Len(hist) : hist[i].op = "repair"
+Repair == /\ Focus = "all" /\ alive /\ dir # "ok" /\ ~Repaired
+          /\ dir' = "ok"
+          /\ UNCHANGED <<sel, ac, alive, mem, acmem, disk, crashed>> /\ Log("repair")
+
+Next == Len(hist) <= MaxSteps /\ (New \/ Type \/ CommitLearn \/ CrashInSave \/ Restart \/ Update \/ Damage \/ Repair)
 Spec == Init /\ [][Next]_vars
 
 Robust         == ~crashed
@@ -88,7 +96,7 @@ LosesAtMostNew == alive => (IF sel = "valid" THEN disk <= mem ELSE TRUE)
 \* re-loading: what the context holds of the user's auto-correct list is what a context created now would hold
 ReloadAsNew == (alive /\ hist[Len(hist)].op = "update") => acmem = Readable(ac)
 \* a completed save leaves a loadable file
-SaveLeavesValid == (hist[Len(hist)].op = "commit" /\ dir = "ok") => sel = "valid"
+SaveLeavesValid == (hist[Len(hist)].op = "commit" /\ dir = "ok") => (sel = "valid" /\ disk = mem)
 
 Emit == (Len(hist) = MaxSteps + 1 /\ (Focus = "damage" => Damaged /\ hist[Len(hist)].op \in {"update", "type"})) =>
             PrintT(<<"REPLAY", ToJson([mc |-> "MC_Fault", focus |-> Focus, steps |-> hist])>>)
